@@ -25,9 +25,9 @@ def part_step(ctx):
             items.append(dict(p, V=V, R=R))
     if len(items) < 1000:
         raise MachineryError("EMStep emitted too few instances")
-    if len(items) > ctx.pick(6000, 20000):
+    if len(items) > ctx.pick(6000, 12000):
         ctx.exhaustive = False
-        items = rng.sample(items, ctx.pick(6000, 20000))
+        items = rng.sample(items, ctx.pick(6000, 12000))
     ctx.log("EM step instances:", len(items))
     res = pool_map("em", "step", items, min_chunk=300)
     for it, rr in zip(items, res):
@@ -51,7 +51,7 @@ def part_pipeline(ctx):
     jobs = []
     fams = ["token", "token", "token", "timed", "timed", "timed", "multi", "multi", "multi", "ngram"]
     KW = {"flat": [1, 1, 1], "harmonic": [2, 1], "geometric": [4, 2, 1]}
-    for k in range(ctx.pick(80, 300)):
+    for k in range(ctx.pick(80, 160)):
         fam = rng.choice(fams)
         V = 3
         nd = rng.randint(1, 3)
@@ -162,9 +162,9 @@ def part_thresh(ctx):
         items = cooc_gen.emit_shapes(ctx, 3 if not timed else 2, shapes, use,
                               "Cooc with epsilon thresholding (%s)" % fam,
                               extra_constants=dict(Eps=eps, TIMED=timed, Gaps=tlc.TLAExpr("{0,1,2}" if timed else "{1}")))
-        if len(items) > ctx.pick(700, 10000):
+        if len(items) > ctx.pick(700, 4000):
             ctx.exhaustive = False
-            items = rng.sample(items, ctx.pick(700, 10000))
+            items = rng.sample(items, ctx.pick(700, 4000))
         for it in items:
             it["eps"] = eps
             it["family"] = fam
